@@ -511,9 +511,12 @@ mod n {
     fn n_c10_qsoljul() {
         drive(
             "C10.qsoljul",
-            "QSolJulData::from(&EnergyProps, table): 2 windows each over orientation {S,NE,HZ} x host boundary {EXTERIOR,GROUND,INTERIOR} x in/out x multiplier {1,2} x computed F_sh,obst {none,0.8} x override {none,0.6} x construction {present,missing}; A_ref 100; 9-entry irradiation table of distinct primes",
+            "QSolJulData::from(&EnergyProps, table): 2 windows each over orientation {S,NE,HZ} x host boundary {EXTERIOR,GROUND,INTERIOR} x in/out x multiplier {1,2} x computed F_sh,obst {none,0.8} x override {none,0.6} x construction {present,missing}; A_ref {100, 0}; 9-entry irradiation table of distinct primes",
             |c| {
-                let mut p = empty_props(globals());
+                let a_ref = c.of(&[100.0f32, 0.0]);
+                let mut g = globals();
+                g.a_ref = a_ref;
+                let mut p = empty_props(g);
                 p.wincons.insert(uid(0xD1), WinConsProps { g_glwi: 0.6, g_glshwi: 0.3, u_value: Some(1.5), c_100: 27.0, f_f: 0.25 });
                 let tab = radtable();
                 let mut desc = vec![];
@@ -561,10 +564,12 @@ mod n {
                         e.4 += f * a;
                     }
                 }
-                c.note(desc.join(" | "));
+                c.note(format!("A_ref={} | {}", a_ref, desc.join(" | ")));
                 let d = QSolJulData::from(&p, &tab);
                 c.check("C10.gains", approx64(d.Q_soljul, q_want, 1e-4, 1e-5), || format!("Q_soljul {} want {}", d.Q_soljul, q_want));
-                c.check("C10.q", approx64(d.q_soljul, q_want / 100.0, 1e-4, 1e-6), || format!("q_soljul {} want {}", d.q_soljul, q_want / 100.0));
+                if a_ref > 0.0 {
+                    c.check("C10.q", approx64(d.q_soljul, q_want / a_ref as f64, 1e-4, 1e-6), || format!("q_soljul {} want {}", d.q_soljul, q_want / a_ref as f64));
+                }
                 c.check("C10.area", approx64(d.a_wp, a_want, 1e-5, 1e-6), || format!("a_wp {} want {}", d.a_wp, a_want));
                 let sum_g: f32 = d.detail.values().map(|x| x.gains).sum();
                 let sum_a: f32 = d.detail.values().map(|x| x.a).sum();
@@ -871,7 +876,8 @@ mod n {
         };
         m.windows.push(mk::window(0x11, wallid, mk::uid(0xD0), 1.5, 1.2, wpos, sb));
         if obstacles[0] {
-            m.walls.push(mk::wall(3, BT::EXTERIOR, mk::uid(0xA0), None, mk::uid(0xC0), 90.0, 180.0, mk::rect(40.0, 30.0), Some(point![20.0, -3.0, 0.0])));
+            // 4 km wide, 3 km high, 3 m in front: hides the window from every sun position in front of it
+            m.walls.push(mk::wall(3, BT::EXTERIOR, mk::uid(0xA0), None, mk::uid(0xC0), 90.0, 180.0, mk::rect(4000.0, 3000.0), Some(point![2000.0, -3.0, -10.0])));
         }
         if obstacles[1] {
             m.shades.push(Shade { id: mk::uid(0x31), name: "overhang".into(), geometry: WallGeom { tilt: 0.0, azimuth: 0.0, position: Some(point![0.0, -1.5, 2.3]), polygon: mk::rect(4.0, 1.5) } });
@@ -910,6 +916,8 @@ mod n {
             let f = eval(&obs);
             c.check("C12.sunlit.range", f >= 0.0 && f <= 1.0, || format!("sunlit fraction {}", f));
             match wv {
+                // (the wall of variant 2 has a position: with the sun behind it the fraction is 0 as for any window)
+                2 if az == 180.0 => c.check("C12.sunlit.behind", f == 0.0, || format!("sun behind the window but sunlit fraction {}", f)),
                 2 | 3 | 4 => c.check("C12.sunlit.no_geometry", f == 1.0, || format!("sunlit fraction {} for a window / wall without geometric position (want 1)", f)),
                 _ => {
                     if az == 180.0 {
@@ -917,8 +925,8 @@ mod n {
                     } else if !obs[0] && !obs[1] && !obs[2] && !obs[4] && wv == 0 {
                         c.check("C12.sunlit.unobstructed", f == 1.0, || format!("nothing can hide the window but sunlit fraction {}", f));
                     }
-                    if obs[0] && az != 180.0 && alt < 40.0 && az == 0.0 {
-                        // a 30 m high, 40 m wide wall 3 m in front hides the window from any sun below 80 degrees
+                    if obs[0] && az != 180.0 {
+                        // a wall 4 km wide and 3 km high 3 m in front hides the window from these sun positions
                         c.check("C12.sunlit.hidden", f == 0.0, || format!("window fully hidden but sunlit fraction {}", f));
                     }
                 }
@@ -962,8 +970,28 @@ mod n {
             if wv == 0 && !obs[0] && !obs[1] && !obs[2] && !obs[4] {
                 c.check("C12.fshobst.unobstructed", f >= 0.97, || format!("nothing can hide the window but F_sh,obst = {}", f));
             }
-            if obs[0] {
-                c.check("C12.fshobst.hidden_has_diffuse_only", f < 0.9, || format!("window behind a 30 m wall but F_sh,obst = {}", f));
+            // independent oracle for the two extreme cases: mean over the July design-day hours of
+            // (sunlit * beam + diffuse) / (beam + diffuse) on the window plane
+            {
+                use crate::climatedata::{CLIMATEMETADATA, JULYRADDATA};
+                let lat = CLIMATEMETADATA.lock().unwrap().get(&zone).unwrap().latitude;
+                let data = JULYRADDATA.lock().unwrap().get(&zone).unwrap().clone();
+                let normal = vector![0.0f32, -1.0, 0.0];
+                let (mut sum_unob, mut sum_hidden, mut nh) = (0.0f64, 0.0f64, 0usize);
+                for d in &data {
+                    let r = climate::radiation_for_surface(climate::nday_from_md(d.month, d.day), d.hour, climate::SolarRadiation { dir: d.dir, dif: d.dif }, lat, 90.0, 0.0, 0.2);
+                    let front = if normal.dot(&ray_dir_to_sun(d.azimuth, d.altitude)) < 0.01 { 0.0 } else { 1.0 };
+                    sum_unob += ((front * r.dir + r.dif) / (r.dir + r.dif)) as f64;
+                    sum_hidden += (r.dif / (r.dir + r.dif)) as f64;
+                    nh += 1;
+                }
+                c.check("C12.fshobst.hours", nh >= 12, || format!("{} July design-day hours", nh));
+                if wv == 0 && !obs[0] && !obs[1] && !obs[2] && !obs[4] {
+                    c.check("C12.fshobst.formula.unobstructed", (f as f64 - sum_unob / nh as f64).abs() <= 0.0051 + 1e-4, || format!("F_sh,obst = {} but the mean over {} hours is {}", f, nh, sum_unob / nh as f64));
+                }
+                if obs[0] {
+                    c.check("C12.fshobst.formula.hidden", (f as f64 - sum_hidden / nh as f64).abs() <= 0.0051 + 1e-4, || format!("hidden at every hour: F_sh,obst = {} but the diffuse share is {}", f, sum_hidden / nh as f64));
+                }
             }
             for k in 0..5 {
                 if !obs[k] {
